@@ -32,7 +32,7 @@ DEVS = ["Float32EncodedAsInt", "NarrowScalarRaises", "ArrayDtypeLost", "EmptyArr
         "RatioZeroUpdatesRaises", "ChoiceAccumOrderLost", "CurrentRepNotSerialized",
         "NpBoolRaises", "FileNameFailsForNonVectorArray"]
 HYPS = ["SetAsList", "MarksDropped", "IndexDropped", "ParentDropped", "NumUpdatesDropped", "FileNameRounds",
-        "ZeroUpdatesSkipsState", "StaleNameCache"]
+        "ZeroUpdatesSkipsState", "StaleNameCache", "IndexClampedToRootCount"]
 LAWS = ["TypeOK", "EncodeTotal", "DecodeTotal", "RoundTripEq", "RoundTripFaithful", "DoubleRoundTrip",
         "MarksPreserved", "ChildLaw", "StatsLaw", "FileNameInjective", "FileNameFunctional", "FinePoolOk",
         "SaveNameIsCurrent", "SavedFilesRoundTrip", "FileNameTotal"]
@@ -58,6 +58,7 @@ HYP_EXPECT = {
     "FileNameRounds": ("fname", "FileNameInjective"),
     "ZeroUpdatesSkipsState": ("result", "RoundTripEq"),
     "StaleNameCache": ("savehist", "SaveNameIsCurrent"),
+    "IndexClampedToRootCount": ("params", "MarksPreserved"),
 }
 WORKBASE = os.path.join(tlc.WORK, "c17-files")
 # ~30 short TLC processes: C1 compiler only (start-up dominates), few compiler threads
@@ -312,7 +313,15 @@ def make_params(P, k, out, keep=None):
     """the object of a params description; for a child (k >= 0): unpack the real parent and take element k"""
     if k < 0 and not P["parent"]:
         return build_params(P, keep)
-    parent = build_params(P["parent"][0], keep)
+    pd = P["parent"][0]
+    if pd["parent"]:  # the parent is itself an unpacked child: obtain it the same way, then mark it
+        parent = make_params(pd, pd["index"], out, keep)
+        if parent is None:
+            return None
+        for nm in pd["unpacked"]:
+            parent.set_unpack_parameter(nm)
+    else:
+        parent = build_params(pd, keep)
     lst = parent.get_unpacked_params_list()
     idx = P["index"]
     if idx >= len(lst):
@@ -439,11 +448,38 @@ def json_cycle(obj, cls, c, out, cmp_fields):
         out.append((dec_exc_sig(ex), f"from_dict(to_dict(x)) raised {type(ex).__name__}: {ex}"))
 
 
+def follow_recipe(P0, recipe, out, keep):
+    """an unpacking history on the real objects: mark, take child k, change the parent the child came from"""
+    obj = build_params(P0, keep)
+    parent = None
+    for o in recipe:
+        if o["op"] == "mark":
+            for nm in o["names"]:
+                obj.set_unpack_parameter(nm)
+        elif o["op"] == "child":
+            lst = obj.get_unpacked_params_list()
+            if o["k"] >= len(lst):
+                out.append(("child", f"{len(lst)} variations, the model expects at least {o['k'] + 1}"))
+                return None
+            parent, obj = obj, lst[o["k"]]
+        elif o["op"] == "parentset":
+            parent.add(o["name"], to_py(o["val"]))
+        elif o["op"] == "parentunmark":
+            parent.set_unpack_parameter(o["name"], False)
+        else:
+            raise ValueError(o["op"])
+    return obj
+
+
 def run_params_case(c, wd):
     from pyphysim.simulations.parameters import SimulationParameters
     out = []
     keep = []
-    obj = make_params(c["P"], c["k"], out, keep)
+    if c["kind"] == "unphist":
+        obj = follow_recipe(c["P0"], c["recipe"], out, keep)
+        keep = []  # the dictionary given to create() belongs to the root, which the recipe may change on purpose
+    else:
+        obj = make_params(c["P"], c["k"], out, keep)
     if obj is None:
         return out
     # the object under test is what the model says it is (for children: the oracle of unpacking)
@@ -1022,7 +1058,7 @@ def run_limit_case(c, wd):
     return out
 
 
-RUNNERS = {"limit": run_limit_case, "savehist": run_savehist_case, "fields": run_fields_case, "fine": run_fine_case, "value": run_params_case, "params": run_params_case, "result": run_result_case,
+RUNNERS = {"unphist": run_params_case, "limit": run_limit_case, "savehist": run_savehist_case, "fields": run_fields_case, "fine": run_fine_case, "value": run_params_case, "params": run_params_case, "result": run_result_case,
            "results": run_results_case, "fname": run_fname_case}
 
 # signature of a mismatch -> finding it may belong to (it must also be in the case's `rel` set,
@@ -1157,10 +1193,10 @@ def run(ctx):
         if len(set(ids)) != len(ids):
             raise tlc.TlcError("two different emitted cases share an identity")
         acts = {"value": "ValueCase", "params": "ParamsCase", "result": "ResultCase", "results": "ResultsCase",
-                "fields": "FieldsCase", "savehist": "SaveHistCase", "fname": "FileNameCase", "fine": "FineCase", "limit": "LimitCase"}
+                "fields": "FieldsCase", "savehist": "SaveHistCase", "fname": "FileNameCase", "fine": "FineCase", "limit": "LimitCase", "unphist": "UnpHistCase"}
         for c in cases:  # every emitted case is one firing of its action
             ctx.actions[acts[c["kind"]]] = ctx.actions.get(acts[c["kind"]], 0) + 1
-        ctx.require_actions(["ValueCase", "ParamsCase", "ResultCase", "ResultsCase", "FieldsCase", "SaveHistCase", "FileNameCase", "FineCase", "LimitCase"])
+        ctx.require_actions(["ValueCase", "ParamsCase", "ResultCase", "ResultsCase", "FieldsCase", "SaveHistCase", "FileNameCase", "FineCase", "LimitCase", "UnpHistCase"])
         for flag, law, r in druns:
             if r.violated != law:
                 raise tlc.TlcError(f"flag {flag}: TLC was expected to refute {law}, it reported {r.violated}")
